@@ -73,13 +73,13 @@ class RemoveAnnotations(SuiteTransformer):
             if sys.version_info < (3, 7):
                 return False
 
-            if not isinstance(get_parent(node), ast.ClassDef):
+            if not isinstance(node.namespace, ast.ClassDef):
                 return False
 
-            if len(get_parent(node).decorator_list) == 0:
+            if len(node.namespace.decorator_list) == 0:
                 return False
 
-            for decorator_node in get_parent(node).decorator_list:
+            for decorator_node in node.namespace.decorator_list:
                 if isinstance(decorator_node, ast.Name) and decorator_node.id == 'dataclass':
                     return True
                 elif isinstance(decorator_node, ast.Attribute) and decorator_node.attr == 'dataclass':
@@ -95,15 +95,15 @@ class RemoveAnnotations(SuiteTransformer):
             if sys.version_info < (3, 5):
                 return False
 
-            if not isinstance(get_parent(node), ast.ClassDef):
+            if not isinstance(node.namespace, ast.ClassDef):
                 return False
 
-            if len(get_parent(node).bases) == 0:
+            if len(node.namespace.bases) == 0:
                 return False
 
             tricky_types = ['NamedTuple', 'TypedDict']
 
-            for base_node in get_parent(node).bases:
+            for base_node in node.namespace.bases:
                 if isinstance(base_node, ast.Name) and base_node.id in tricky_types:
                     return True
                 elif isinstance(base_node, ast.Attribute) and base_node.attr in tricky_types:
@@ -112,7 +112,8 @@ class RemoveAnnotations(SuiteTransformer):
             return False
 
         # is this a class attribute or a variable?
-        if isinstance(get_parent(node), ast.ClassDef):
+        # An annotated assignment nested in a block (if, try, with...) of the class body is still in the class namespace
+        if isinstance(node.namespace, ast.ClassDef):
             if not self._options.remove_class_attribute_annotations:
                 return node
         else:
